@@ -65,25 +65,21 @@ fn c03_validate_signers(n: usize) {
 }
 // HARNESS props=C03 tier=quick profile=gw_sig mode=strict shape="N=0 signers"
 #[kani::proof]
-#[kani::unwind(42)]
 fn c03_validate_signers_n0() {
     c03_validate_signers(0)
 }
 // HARNESS props=C03 tier=quick profile=gw_sig mode=strict shape="N=1; key 2 symbolic bytes, weight/threshold full u128"
 #[kani::proof]
-#[kani::unwind(42)]
 fn c03_validate_signers_n1() {
     c03_validate_signers(1)
 }
 // HARNESS props=C03 tier=quick profile=gw_sig mode=strict shape="N=2"
 #[kani::proof]
-#[kani::unwind(42)]
 fn c03_validate_signers_n2() {
     c03_validate_signers(2)
 }
 // HARNESS props=C03 tier=quick profile=gw_sig mode=strict shape="N=3"
 #[kani::proof]
-#[kani::unwind(42)]
 fn c03_validate_signers_n3() {
     c03_validate_signers(3)
 }
@@ -131,19 +127,16 @@ fn c01_sigs_sound(n: usize) {
 }
 // HARNESS props=C01 tier=quick profile=gw_sig shape="N=1 proof entries; arbitrary oracle"
 #[kani::proof]
-#[kani::unwind(66)]
 fn c01_sigs_sound_n1() {
     c01_sigs_sound(1)
 }
 // HARNESS props=C01 tier=quick profile=gw_sig shape="N=2"
 #[kani::proof]
-#[kani::unwind(66)]
 fn c01_sigs_sound_n2() {
     c01_sigs_sound(2)
 }
 // HARNESS props=C01 tier=quick profile=gw_sig shape="N=3"
 #[kani::proof]
-#[kani::unwind(66)]
 fn c01_sigs_sound_n3() {
     c01_sigs_sound(3)
 }
@@ -183,38 +176,32 @@ fn c01_sigs_complete(n: usize) {
 }
 // HARNESS props=C01 tier=quick profile=gw_sig mode=strict shape="N=1, every subset mask"
 #[kani::proof]
-#[kani::unwind(66)]
 fn c01_sigs_complete_n1() {
     c01_sigs_complete(1)
 }
 // HARNESS props=C01 tier=quick profile=gw_sig mode=strict shape="N=2, every subset mask"
 #[kani::proof]
-#[kani::unwind(66)]
 fn c01_sigs_complete_n2() {
     c01_sigs_complete(2)
 }
 // HARNESS props=C01 tier=quick profile=gw_sig mode=strict shape="N=3, every subset mask"
 #[kani::proof]
-#[kani::unwind(66)]
 fn c01_sigs_complete_n3() {
     c01_sigs_complete(3)
 }
 
 // HARNESS props=C01 tier=thorough profile=gw_sig4 shape="N=4 proof entries; arbitrary oracle"
 #[kani::proof]
-#[kani::unwind(66)]
 fn c01_sigs_sound_n4() {
     c01_sigs_sound(4)
 }
 // HARNESS props=C01 tier=thorough profile=gw_sig4 mode=strict shape="N=4, every subset mask"
 #[kani::proof]
-#[kani::unwind(66)]
 fn c01_sigs_complete_n4() {
     c01_sigs_complete(4)
 }
 // HARNESS props=C03 tier=thorough profile=gw_sig4 mode=strict shape="N=4"
 #[kani::proof]
-#[kani::unwind(66)]
 fn c03_validate_signers_n4() {
     c03_validate_signers(4)
 }
